@@ -214,6 +214,10 @@ pub fn proj_message(w: &World, msg: &ProtocolMessage) -> Value {
     let mut out = vec![];
     let id_of = |b: &Value| -> Value {
         let bytes: Vec<u8> = b.as_array().unwrap().iter().map(|x| x.as_u64().unwrap() as u8).collect();
+        if bytes.len() < 64 {
+            // a malformed identifier (only reachable through corrupted / hostile bytes)
+            return json!([9, 9, key_json(&bytes)]);
+        }
         let ns: [u8; 32] = bytes[0..32].try_into().unwrap();
         let a: [u8; 32] = bytes[32..64].try_into().unwrap();
         json!([w.ns_rel(&ns, &main), w.author_rank(&a), key_json(&bytes[64..])])
@@ -226,6 +230,10 @@ pub fn proj_message(w: &World, msg: &ProtocolMessage) -> Value {
         } else if let Some(it) = p.get("RangeItem") {
             let mut vals = vec![];
             for pair in it["values"].as_array().unwrap() {
+                if pair[0]["entry"]["id"].as_array().map(|a| a.len()).unwrap_or(0) < 64 {
+                    vals.push(json!({"e": {"a":9,"k":[],"ts":0,"h":0,"len":0}, "cs": 2, "nsok": false, "sigok": false}));
+                    continue;
+                }
                 let se: SignedEntry = serde_json::from_value(pair[0].clone()).unwrap();
                 let cs: ContentStatus = serde_json::from_value(pair[1].clone()).unwrap();
                 vals.push(json!({"e": w.proj_entry(&se), "cs": cs_num(cs), "nsok": true, "sigok": true}));
